@@ -6,7 +6,9 @@ PATTERNS = ["*.tmp", "a?", "[ab]*", "Sound/", "notes", "*.txt", "Clips"]
 
 
 def scenario(rng, i):
-    return gen.gen_history_scenario(rng, n_steps=rng.choice([3, 5, 7]), patterns=PATTERNS if i % 3 == 0 else None)
+    # every third scenario uses patterns, incl. ones bound to a location (nested paths, globs below a folder, root-anchored names)
+    pats = (lambda tree, r: PATTERNS + gen.path_patterns(tree, r, k=3)) if i % 3 == 0 else None
+    return gen.gen_history_scenario(rng, n_steps=rng.choice([3, 5, 7]), patterns=pats)
 
 
 RULE = ("random trees (0-14 entries, depth <= 4, empty files/dirs, names with spaces, non-ASCII, XML-special, glob characters, U+2028), "
